@@ -30,7 +30,7 @@ type c09Params struct {
 }
 
 var c09Kinds = []string{"抛出异常", "抛出错", "取样越界", "解析JSON", "除零", "索引越界", "未定义"}
-var c09Sites = []string{"语句", "如果", "每当", "遍历", "构造", "拦截内"}
+var c09Sites = []string{"语句", "如果", "每当", "遍历", "构造", "拦截内", "遍历字典"}
 
 func c09ClassOf(kind int) string {
 	if kind == 1 {
@@ -77,6 +77,8 @@ func c09Site(site, kind int, defs *[]zn.Stmt) []zn.Stmt {
 		return []zn.Stmt{zn.Decl{Pairs: []zn.DeclPair{{Names: []string{"圈"}, Val: c09N(0)}}}, zn.While{Cond: zn.Bin{Op: "<", L: c09V("圈"), R: c09N(2)}, Body: body}}
 	case 3:
 		return []zn.Stmt{zn.Iter{Vars: []string{"元"}, Target: zn.List{Items: []zn.Expr{c09N(1), c09N(2)}}, Body: raise}}
+	case 6:
+		return []zn.Stmt{zn.Iter{Vars: []string{"键", "值"}, Target: zn.Dict{Pairs: []zn.DictPair{{Key: "乙", Val: c09N(1)}, {Key: "甲", Val: c09N(2)}}}, Body: raise}}
 	case 4:
 		*defs = append(*defs,
 			zn.Class{Name: "造", Props: []zn.Prop{{Name: "P", Val: c09N(1)}}},
@@ -358,7 +360,7 @@ func init() {
 	mc.Register(&mc.Check{
 		ID:    "C09",
 		Level: "exploration",
-		Rule: "E1 exhaustive over the product: raise kind {抛出异常, 抛出 custom type, failing built-in (取样 out of range), failing library call (解析JSON), 1 / 0, index out of range, undefined name} x raise site {statement, in 如果, in 每当, in 遍历, in a constructor, inside a handler} x call depth 0..D x handler placement per level {none, matching, non-matching, non-matching+matching} x handler body {no 输出, 输出 v, raises again} x level 1 plain method / method of an object x innermost level in the main file / in an imported module; every program runs follow-up probes after the handled call: caller locals, caller's 其, a callee local that must be gone (guarded read), a second call of the same chain, final result; on in-memory runs also the VM's call depth and scope depth. Oracle: reference interpreter. Distinct by construction; non-trivial = at least one handler present.",
+		Rule: "E1 exhaustive over the product: raise kind {抛出异常, 抛出 custom type, failing built-in (取样 out of range), failing library call (解析JSON), 1 / 0, index out of range, undefined name} x raise site {statement, in 如果, in 每当, in 遍历 over a list, in 遍历 over a dictionary, in a constructor, inside a handler} x call depth 0..D x handler placement per level {none, matching, non-matching, non-matching+matching} x handler body {no 输出, 输出 v, raises again} x level 1 plain method / method of an object x innermost level in the main file / in an imported module; every program runs follow-up probes after the handled call: caller locals, caller's 其, a callee local that must be gone (guarded read), a second call of the same chain, final result; on in-memory runs also the VM's call depth and scope depth. Oracle: reference interpreter. Distinct by construction; non-trivial = at least one handler present.",
 		Assumptions: []string{
 			"reference semantics from manual ch.4: runtime faults and failing built-ins are exceptions of class 异常; handler value is its 输出 or 空",
 			"the message text of faults / built-in failures is not compared (其内容 is displayed only for 抛出 with a known message)",
